@@ -108,7 +108,7 @@ def run(tier, only=None):
         from qlasskit.ast2ast import ast2ast
         from qlasskit.ast2ast.astrewriter import ASTRewriter
         from qlasskit.ast2ast.replacemultitargetassign import ReplaceMultiTargetAssign
-        lt = [("TV", o, src) for (o, src) in c01_l3.family(tier) if o != "outside"]
+        lt = [("TV", o, src) for (o, src) in c01_l3.family(tier, front=True) if o != "outside"]
         rep.under_contract(ast2ast, ASTRewriter.visit_For, ASTRewriter.visit_If, ASTRewriter.visit_Assign, ASTRewriter.visit_AugAssign, ASTRewriter.visit_Call,
                            ASTRewriter.visit_Subscript, ReplaceMultiTargetAssign.visit_Assign)
     rs = run_pool(_job, jobs + canaries + cross, chunksize=4) + run_pool(_job, la, chunksize=1) + run_pool(_job, lt, chunksize=2) + run_pool(_job, l3, chunksize=2)
